@@ -1100,7 +1100,12 @@ package mpb
 //@   ensures  (cond ==> result == option) && (!cond ==> result == nil)
 
 //@ func NewWithContext
-//@   props    C02 C05 C04 C15
+//@   props    C02 C05 C04 C15 C13
+//@   ensures  manual: s.manualRC != nil ==> spawned("(*pState).manualRefreshListener") == old(spawned("(*pState).manualRefreshListener")) + 1 && spawned("(*pState).autoRefreshListener") == old(spawned("(*pState).autoRefreshListener")) && !s.autoRefresh
+//@   ensures  auto: s.manualRC == nil && s.autoRefresh ==> spawned("(*pState).autoRefreshListener") == old(spawned("(*pState).autoRefreshListener")) + 1 && spawned("(*pState).manualRefreshListener") == old(spawned("(*pState).manualRefreshListener"))
+//@   ensures  quiet: s.manualRC == nil && !s.autoRefresh ==> spawned("(*pState).autoRefreshListener") == old(spawned("(*pState).autoRefreshListener")) && spawned("(*pState).manualRefreshListener") == old(spawned("(*pState).manualRefreshListener")) // no listener, so nothing ever asks for a frame: no bar rows, no cursor controls
+//@   ensures  terminal: s.manualRC == nil && returned("(*Writer).IsTerminal", 0) ==> s.autoRefresh // a terminal is always refreshed
+//@   ensures  served: spawned("(*Progress).serve") == old(spawned("(*Progress).serve")) + 1 && spawned("(heapManager).run") == old(spawned("(heapManager).run")) + 1
 //@   assumes  stdout: global("os.Stdout") != nil && global("io.Discard") != nil
 //@   loop 1   invariant s != nil && s.iterDrop != nil && s.renderReq != nil && s.queueBars != nil && s.ctx != nil && fresh(s) && s.delayRC != s.iterDrop && !isext(s.iterDrop)
 //@   loop 1   invariant s.output != nil && s.debugOut != nil
@@ -1532,6 +1537,7 @@ package mpb
 //@   props    C14 C02
 //@   requires b != nil
 //@   modifies recvd("<-chan struct{}")
+//@   ensures  stopped: result == (recvd(done(b.ctx)) == old(recvd(done(b.ctx)))) // running exactly until the bar's context is done
 
 //@ func (*Bar).Wait
 //@   props    C14 C02 C11
@@ -1671,6 +1677,12 @@ package mpb
 //@   modifies nothing
 //@   loop 1   invariant 0 <= start && start <= len(row)
 //@   loop 2   invariant 0 <= start && start <= len(row)
+//@   loop 2   ensures asked: called("decor.Decorator.Sync") == iter(called("decor.Decorator.Sync")) + 1 && calledWith("decor.Decorator.Sync", 0) == d // every decorator of the side is asked, once
+//@   loop 2   ensures collect: len(row) == iter(len(row)) + ite(returned("decor.Decorator.Sync", 1), 1, 0) // a column per synchronized decorator, none for the others
+//@   loop 2   ensures last: returned("decor.Decorator.Sync", 1) ==> row[len(row)-1] == returned("decor.Decorator.Sync", 0) // appended in order, its own channel
+//@   loop 2   ensures kept: forall(k, 0, iter(len(row)), row[k] == iter(row[k])) // columns already assigned keep their channel
+//@   loop 1   ensures side: len(table[i]) == len(row) - iter(start) && start == len(row) // a side's columns are exactly the ones collected on that side
+//@   loop 1   ensures other: i == 0 ==> len(table[1]) == iter(len(table[1]))
 
 //@ functype bState.extender
 //@   params   stat rows
